@@ -17,12 +17,34 @@ Definition show_res {A} (c : codec A) (summary : A -> bytes) (input : bytes) : b
       "ok "%lb ++ dec_of_N (N.of_nat (length input - length rest)) ++ sp ++ dec_of_N (elen c v) ++ sp ++ summary v ++ sp ++ show_hex (enc c v)
   | None => "err"%lb end.
 
+(* field-wise fingerprint of the decoded value (length and byte sum of every field, by field NAME): binds field identity between model
+   and implementation, so an encoder/decoder pair that consistently swaps or renames two fields no longer agrees with the model *)
+Definition bsum (b : bytes) : N := fold_left (fun a x => (a + b2n x) mod 65521) b 0.
+Definition fpb (b : bytes) : bytes := dec_of_N (N.of_nat (length b)) ++ "."%lb ++ dec_of_N (bsum b).
+Definition fpo (o : option bytes) : bytes := match o with None => "-"%lb | Some b => fpb b end.
+Definition fpstack (l : list bytes) : bytes := "["%lb ++ join ","%lb (map fpb l) ++ "]"%lb.
+Definition fpval (v : cvalue) : bytes := match v with VNull => "n"%lb | VExplicit n => "e"%lb ++ dec_of_N n | VConf c => "c"%lb ++ fpb c end.
+Definition fpasset (v : casset) : bytes := match v with ANull => "n"%lb | AExplicit b => "e"%lb ++ fpb b | AConf c => "c"%lb ++ fpb c end.
+Definition fpnonce (v : cnonce) : bytes := match v with NNull => "n"%lb | NExplicit b => "e"%lb ++ fpb b | NConf c => "c"%lb ++ fpb c end.
 Definition sum_txin (i : txin) : bytes :=
-  dec_of_N (o_vout (in_prev i)) ++ ":"%lb ++ show_bool (in_pegin i) ++ show_bool (has_issuance i).
+  fpb (o_txid (in_prev i)) ++ ":"%lb ++ dec_of_N (o_vout (in_prev i)) ++ ":"%lb ++ show_bool (in_pegin i) ++ show_bool (has_issuance i)
+  ++ ":s"%lb ++ fpb (in_script i) ++ ":q"%lb ++ dec_of_N (in_seq i)
+  ++ ":i"%lb ++ fpb (i_nonce (in_iss i)) ++ "/"%lb ++ fpb (i_entropy (in_iss i)) ++ "/"%lb ++ fpval (i_amount (in_iss i)) ++ "/"%lb ++ fpval (i_keys (in_iss i))
+  ++ ":w"%lb ++ fpo (w_amount_rp (in_wit i)) ++ "/"%lb ++ fpo (w_keys_rp (in_wit i)) ++ "/"%lb ++ fpstack (w_script (in_wit i)) ++ "/"%lb ++ fpstack (w_pegin (in_wit i)).
+Definition sum_txout (o : txout) : bytes :=
+  "a"%lb ++ fpasset (out_asset o) ++ ":v"%lb ++ fpval (out_value o) ++ ":n"%lb ++ fpnonce (out_nonce o) ++ ":s"%lb ++ fpb (out_script o)
+  ++ ":w"%lb ++ fpo (w_surj (out_wit o)) ++ "/"%lb ++ fpo (w_range (out_wit o)).
 Definition sum_tx (t : tx) : bytes :=
-  "w"%lb ++ show_bool (has_witness t) ++ "/"%lb ++ dec_of_N (N.of_nat (length (tx_out t))) ++ "/"%lb ++ join ","%lb (map sum_txin (tx_in t)).
+  "w"%lb ++ show_bool (has_witness t) ++ "/v"%lb ++ dec_of_N (tx_version t) ++ "/l"%lb ++ dec_of_N (tx_lock t)
+  ++ "/I"%lb ++ join ","%lb (map sum_txin (tx_in t)) ++ "/O"%lb ++ join ","%lb (map sum_txout (tx_out t)).
+Definition sum_full (f : fullparams) : bytes :=
+  fpb (fp_sbs f) ++ "/"%lb ++ dec_of_N (fp_limit f) ++ "/"%lb ++ fpb (fp_program f) ++ "/"%lb ++ fpb (fp_script f) ++ "/"%lb ++ fpstack (fp_ext f).
+Definition sum_params (p : params) : bytes :=
+  match p with PNull => "N"%lb | PCompact s l e => "C"%lb ++ fpb s ++ "/"%lb ++ dec_of_N l ++ "/"%lb ++ fpb e | PFull f => "F"%lb ++ sum_full f end.
 Definition sum_header (h : header) : bytes :=
-  "v"%lb ++ dec_of_N (h_version h) ++ (match h_ext h with EProof _ _ => "P"%lb | EDynafed _ _ _ => "D"%lb end).
+  "v"%lb ++ dec_of_N (h_version h) ++ ":p"%lb ++ fpb (h_prev h) ++ ":m"%lb ++ fpb (h_merkle h) ++ ":t"%lb ++ dec_of_N (h_time h) ++ ":h"%lb ++ dec_of_N (h_height h) ++ ":"%lb ++
+  (match h_ext h with EProof c s => "P"%lb ++ fpb c ++ "/"%lb ++ fpb s
+   | EDynafed c p w => "D"%lb ++ sum_params c ++ "|"%lb ++ sum_params p ++ "|"%lb ++ fpstack w end).
 Definition none {A} (_ : A) : bytes := "-"%lb.
 
 Definition run4 (ty caps pts hx : bytes) : bytes :=
@@ -31,13 +53,13 @@ Definition run4 (ty caps pts hx : bytes) : bytes :=
           let pt_ok := mem_bytes valid in
           if bytes_eqb ty "tx"%lb then show_res (c_tx pt_ok maxvec ci co cv) sum_tx input
           else if bytes_eqb ty "txin"%lb then show_res (c_txin pt_ok maxvec) sum_txin input
-          else if bytes_eqb ty "txout"%lb then show_res (c_txout pt_ok maxvec) none input
+          else if bytes_eqb ty "txout"%lb then show_res (c_txout pt_ok maxvec) sum_txout input
           else if bytes_eqb ty "header"%lb then show_res (c_header maxvec cv) sum_header input
-          else if bytes_eqb ty "block"%lb then show_res (c_block pt_ok maxvec ci co cv ct) (fun b => sum_header (b_header b) ++ "/"%lb ++ dec_of_N (N.of_nat (length (b_txs b)))) input
-          else if bytes_eqb ty "params"%lb then show_res (c_params maxvec cv) (fun p => dec_of_N (params_tag p)) input
-          else if bytes_eqb ty "value"%lb then show_res (c_value pt_ok) none input
-          else if bytes_eqb ty "asset"%lb then show_res (c_asset pt_ok) none input
-          else if bytes_eqb ty "nonce"%lb then show_res (c_nonce pt_ok) none input
+          else if bytes_eqb ty "block"%lb then show_res (c_block pt_ok maxvec ci co cv ct) (fun b => sum_header (b_header b) ++ "/T"%lb ++ join ";"%lb (map sum_tx (b_txs b))) input
+          else if bytes_eqb ty "params"%lb then show_res (c_params maxvec cv) sum_params input
+          else if bytes_eqb ty "value"%lb then show_res (c_value pt_ok) fpval input
+          else if bytes_eqb ty "asset"%lb then show_res (c_asset pt_ok) fpasset input
+          else if bytes_eqb ty "nonce"%lb then show_res (c_nonce pt_ok) fpnonce input
           else err "type"
       | _, _, _ => err "parse" end.
 (* an optional fifth word ("ref": the input is the reference encoding of a canonical value) only matters to the harness *)
